@@ -36,23 +36,57 @@ def gen_cases(ctx, n):
             cases.append({'ops': G.history_program(ctx.rng)})
         elif r < 0.8:
             cases.append({'ops': G.rand_program(ctx.rng, ctx.rng.randint(3, 10))})
-        elif r < 0.9:
+        elif r < 0.84:
             ks = ctx.rng.sample(LABELS, ctx.rng.randint(0, 6))
             cases.append({'dict': 'metadata', 'entries': [[k, ctx.rng.choice([0, 1, 24, 2**32, -1, -2**63])] for k in ks]})
-        else:
+        elif r < 0.88:
             ks = ctx.rng.sample(ADDRS, ctx.rng.randint(0, 6))
-            cases.append({'dict': 'withdrawals', 'entries': [[k.hex(), ctx.rng.choice([0, 1, 1000000, 2**32, 2**64 - 1])] for k in ks]})
+            cases.append({'dict': ctx.rng.choice(['withdrawals', 'treasury']),
+                          'entries': [[k.hex(), ctx.rng.choice([0, 1, 1000000, 2**32, 2**64 - 1])] for k in ks]})
+        elif r < 0.93:
+            # redeemer map: keys [tag, index] — array keys whose encoded lengths differ (index 23 / 24 / 256 / 65536)
+            keys = ctx.rng.sample([(t, i) for t in range(6) for i in IXS], ctx.rng.randint(0, 6))
+            cases.append({'dict': 'redeemers',
+                          'entries': [[[t, i], [ctx.rng.choice([0, 5, 24]), ctx.rng.choice([0, 1, 2**32]), ctx.rng.choice([0, 7, 2**40])]]
+                                      for t, i in keys]})
+        elif r < 0.97:
+            # vote map: keys [tx id, index]
+            txs = [bytes([b]) * 32 for b in (0x11, 0x22, 0xee)]
+            keys = ctx.rng.sample([(t.hex(), i) for t in txs for i in IXS if i < 65536], ctx.rng.randint(0, 6))
+            cases.append({'dict': 'votes', 'entries': [[[t, i], ctx.rng.randint(0, 2)] for t, i in keys]})
+        else:
+            hs = [bytes([b]) * 28 for b in (0x01, 0x7f, 0xf0)]
+            keys = ctx.rng.sample([(c, h.hex()) for c in range(5) for h in hs], ctx.rng.randint(0, 6))
+            cases.append({'dict': 'voters', 'entries': [[[c, h], ctx.rng.randint(0, 2)] for c, h in keys]})
     return cases
+
+
+IXS = [0, 1, 23, 24, 25, 255, 256, 65535, 65536]
+
+
+def dict_kvs(c):
+    """entries of a dict case as Coq (key primitive, value primitive) literals"""
+    k = c['dict']
+    if k == 'metadata':
+        return [G.cpair(f'cint {G.cz(a)}', f'cint {G.cz(v)}') for a, v in c['entries']]
+    if k in ('withdrawals', 'treasury'):
+        return [G.cpair(f'CB {G.chx(bytes.fromhex(a))}', f'cint {G.cz(v)}') for a, v in c['entries']]
+    if k == 'redeemers':
+        return [G.cpair(f'CA [cint {G.cz(t)}; cint {G.cz(i)}]', f'CA [cint {G.cz(d)}; CA [cint {G.cz(m)}; cint {G.cz(st)}]]')
+                for (t, i), (d, m, st) in c['entries']]
+    if k == 'votes':
+        return [G.cpair(f'CA [CB {G.chx(bytes.fromhex(t))}; cint {G.cz(i)}]', f'CA [cint {G.cz(v)}; CS 22%N]') for (t, i), v in c['entries']]
+    if k == 'voters':
+        return [G.cpair(f'CA [cint {G.cz(cd)}; CB {G.chx(bytes.fromhex(h))}]',
+                        f'CM [(CA [CB {G.chx(bytes(32))}; cint 0%Z], CA [cint {G.cz(v)}; CS 22%N])]') for (cd, h), v in c['entries']]
+    raise ValueError(k)
 
 
 def render(part):
     progs, dicts = [], []
     for i, c, r in part:
         if 'dict' in c:
-            if c['dict'] == 'metadata':
-                kvs = G.clist([G.cpair(f'cint {G.cz(k)}', f'cint {G.cz(v)}') for k, v in c['entries']])
-            else:
-                kvs = G.clist([G.cpair(f'CB {G.chx(bytes.fromhex(k))}', f'cint {G.cz(v)}') for k, v in c['entries']])
+            kvs = G.clist(dict_kvs(c))
             dicts.append(f'({i}%nat, ({kvs}, {G.clist([G.chx(bytes.fromhex(r[x])) for x in ("cbor", "cbor2", "rt")])}))')
         else:
             cb = G.clist([G.chx(bytes.fromhex(x)) for x in r['cbor']])
@@ -121,8 +155,9 @@ def correspond(ctx, n=None):
         evaluations=len(cases), distinct_nontrivial=len({C.canon_hash(c) for c in cases if nontrivial(c)}),
         rule='55% history programs (one target content over <=6 policies x <=6 names, names of length 0..32, reached by '
              '3 histories: direct literal in random insertion order; sum of two random summands with cancelling detour; '
-             'item assignments with zero entries left behind), 25% random value programs, 20% Metadata/Withdrawals '
-             'dictionaries built in two insertion orders + decode/encode. Every variable of every program is serialized. '
+             'item assignments with zero entries left behind), 25% random value programs, 20% map-like classes (Metadata, Withdrawals, '
+             'TreasuryWithdrawal, RedeemerMap keyed by [tag, index], vote maps keyed by [tx id, index], VotingProcedures keyed by '
+             '[code, credential]; key encodings of different lengths) built in two insertion orders + decode/encode. Every variable of every program is serialized. '
              'non-trivial = >=3 constructing ops or >=2 dict entries; distinct by hash',
         samples=[cases[0], next((c for c in cases if 'dict' in c), cases[-1])],
         case_kinds=kinds, values_serialized=nvals, bare_int_values=bare,
